@@ -613,12 +613,15 @@ class KeychainSqlite3(Keychain):
             return None
         if sign_args.get('digest_sha256', False):
             return DigestSha256Signer()
+        def absent(arg):
+            # Identity / Key objects are Mappings: one without keys / certificates is falsy, but it was still given
+            return arg is None or (not isinstance(arg, (Identity, Key, Certificate)) and not arg)
         cert_name = sign_args.get('cert', None)
-        if not cert_name:
+        if absent(cert_name):
             key_name = sign_args.get('key', None)
-            if not key_name:
+            if absent(key_name):
                 id_name = sign_args.get('identity', None)
-                if id_name:
+                if not absent(id_name):
                     if isinstance(id_name, Identity):
                         identity = id_name
                     else:
